@@ -297,6 +297,24 @@ pub fn run_check(ctx: &Ctx, replay: Option<&str>, only: Option<&str>) -> i32 {
             }
         }
     }
+    // 2c. generator health: a run in which the program refuses what the generators build (worlds, baselines, ordinary operations)
+    //     decides nothing; it is reported as inconclusive instead of OK.  Minimum rates come from /verif/health.json.
+    if violation.is_none() && only.is_none() {
+        if let Ok(txt) = std::fs::read_to_string(verif_root().join("health.json")) {
+            if let Ok(hv) = serde_json::from_str::<serde_json::Value>(&txt) {
+                for r in &results {
+                    let Some(mins) = hv["min_per_10k"][def.id][r.name.as_str()].as_object() else { continue };
+                    for (k, m) in mins {
+                        let got = if k == "nontrivial_evaluations" { r.nontrivial_evaluations } else { r.counters.get(k.trim_start_matches("counter:")).copied().unwrap_or(0) };
+                        let need = m.as_f64().unwrap_or(0.0) * r.evaluations as f64 / 10_000.0;
+                        if (got as f64) < need && inconclusive.is_none() {
+                            inconclusive = Some(format!("generator health: sub-check {} produced {k} = {got}, fewer than the minimum {need:.0} for {} evaluations (is the program refusing ordinary operations?)", r.name, r.evaluations));
+                        }
+                    }
+                }
+            }
+        }
+    }
     // 3. known findings of this property
     let mut known_lines = vec![];
     for k in load_known() {
@@ -335,7 +353,7 @@ pub fn run_check(ctx: &Ctx, replay: Option<&str>, only: Option<&str>) -> i32 {
             1
         }
         None if inconclusive.is_some() => {
-            outln!("INCONCLUSIVE property={}: coverage-guided tier did not complete ({}); the generated search held", def.id, inconclusive.unwrap());
+            outln!("INCONCLUSIVE property={}: {}; no violation was found in what did run", def.id, inconclusive.unwrap());
             2
         }
         None => {
